@@ -61,11 +61,18 @@ pub fn handle(toks: &[&str]) -> String {
             out
         }
         ["vec", h, ops @ ..] => {
-            let mut v = unhex(h);
+            // "<hex>+<n>": the caller's vector comes with n bytes of spare capacity (a reused scratch buffer)
+            let (h, spare) = match h.split_once('+') { Some((a, b)) => (a, b.parse::<usize>().unwrap()), None => (*h, 0) };
+            let init = unhex(h);
+            let mut v: Vec<u8> = Vec::with_capacity(init.len() + spare);
+            v.extend_from_slice(&init);
             let ops = split_ops(ops);
             let vp: *const Vec<u8> = &v;
             let mut t = VecOutputTarget::from(&mut v);
-            run_target(&mut t, &ops, |_| { let v = unsafe { &*vp }; (v.len(), hex(v)) })
+            run_target(&mut t, &ops, |_| {
+                let v = unsafe { &*vp };
+                if v.len() > v.capacity() { (v.len(), format!("LENGTH-EXCEEDS-CAPACITY:{}>{}", v.len(), v.capacity())) } else { (v.len(), hex(v)) }
+            })
         }
         ["src", h, rops @ ..] => {
             let b = unhex(h);
